@@ -620,9 +620,11 @@ def _shard_pure(ctx):
 
 
 def run_shard(ctx):
-    _shard_pure(ctx)
+    # the concurrent part first: on a contended machine the soft time budget then cuts the (cheap, numerous)
+    # generated path cases, not the interleaving cases
     from checks import c09_conc
     c09_conc.shard_conc(ctx)
+    _shard_pure(ctx)
 
 
 MANIFEST_ENTRY = {
@@ -646,7 +648,9 @@ MANIFEST_ENTRY = {
                   'download may be left INITIALIZING / DOWNLOADING without a task; optionally a keep-directory chain '
                   'is configured and the uploaders report directories that are named like the file or are 300 '
                   'characters long (cannot be created) next to an equally named active / finished / pre-existing file '
-                  'in the download root. '
+                  'in the download root; optionally a paused download whose partial file was deleted from outside is '
+                  'queued again in the instant an equally named download arrives (clashes that begin before the resumed '
+                  'download has prepared its path again are attributed to the outside deletion and only labelled). '
                   'Pure part only checks the path chosen by the naming layer (what TransferManager._prepare_download_path '
                   'joins and opens); regular-name and freshness predicates are asserted only for the chains whose '
                   'strategies promise them (see assumptions). POSIX file system; no symlinks, no NUL in paths.',
